@@ -146,14 +146,34 @@ def run(ck, ix, tier):
     ck.analysed(fi)
     cfg = cfg_of(fi)
     src = norm(fi.node)
-    for key, cond in (("more-than-one-offset-unit", "len(nonmult_units) > 1"), ("higher-order", "exponent != 1"), ("multiplicative-context", "len(units) > 1 and (not self.autoconvert_offset_to_baseunit)")):
-        tests = [n.id for n in cfg.nodes if n.kind == "test" and norm(n.ast) == cond]
-        if not tests:
+    # the list of non-multiplicative (unit, exponent) pairs, whatever it is called: a comprehension over units.items()
+    # filtered by `not self._is_multiplicative(<unit>)`
+    from .. import shape as _shv
+    sel = [a_ for a_ in walk_local(fi.node) if isinstance(a_, ast.Assign) and isinstance(a_.targets[0], ast.Name) and isinstance(a_.value, (ast.ListComp, ast.GeneratorExp))
+           and norm(a_.value.generators[0].iter) == "units.items()"]
+    oks = False
+    NM = "nonmult_units"
+    for a_ in sel:
+        g_ = a_.value.generators[0]
+        uvar = norm(g_.target.elts[0]) if isinstance(g_.target, ast.Tuple) else "?"
+        facts_ = {(norm(p_), t_) for i_ in g_.ifs for p_, t_ in _shv.conjuncts(i_, "t")}
+        if (f"self._is_multiplicative({uvar})", False) in facts_:
+            oks, NM = True, a_.targets[0].id
+    ck.check(oks, "G-PROV", "_validate_and_extract|selects-non-multiplicative-units", fi.loc(), "non-multiplicative units selected by the registry predicate", "non-multiplicative units are no longer selected with `not self._is_multiplicative(unit)`")
+    forms = lambda a_: {norm(a_), _shv.rnorm(a_, fi.node, 1), _shv.rnorm(a_, fi.node, 2)}
+    many = lambda a_: isinstance(a_, ast.Compare) and f"len({NM}) > 1" in forms(a_)
+    e_many = _shv.guard_edges(cfg, many, want=True)
+    e_exp = _shv.guard_edges(cfg, lambda a_: isinstance(a_, ast.Compare) and isinstance(a_.ops[0], ast.Eq) and norm(a_.comparators[0]) == "1" and isinstance(a_.left, ast.Name)
+                             and not _shv.rnorm(a_.left, fi.node, 2).startswith("len("), want=False)
+    e_ctx = sorted(set(_shv.guard_edges(cfg, lambda a_: isinstance(a_, ast.Compare) and "len(units) > 1" in forms(a_), want=True)) &
+                   set(_shv.guard_edges(cfg, lambda a_: norm(a_) == "self.autoconvert_offset_to_baseunit", want=False)))
+    rules_ = (("more-than-one-offset-unit", e_many, f"len({NM}) > 1"), ("higher-order", e_exp, "exponent != 1"), ("multiplicative-context", e_ctx, "len(units) > 1 and not autoconvert"))
+    for key, edges_, cond in rules_:
+        if not edges_:
             ck.fail("G-DOM", f"_validate_and_extract|{key}-rejected", fi.loc(), f"the test `{cond}` is gone")
-        for t in tests:
-            p = edge_leads_only_to_raise(cfg, t, "t")
+        for (t, lab) in edges_:
+            p = edge_leads_only_to_raise(cfg, t, lab)
             ck.check(p is None, "G-DOM", f"_validate_and_extract|{key}-rejected", fi.loc(cfg.nodes[t].ast), f"`{cond}` raises", f"`{cond}` no longer raises", witness(cfg, p))
-    ck.check("if not self._is_multiplicative(u)" in src, "G-PROV", "_validate_and_extract|selects-non-multiplicative-units", fi.loc(), "non-multiplicative units selected by the registry predicate", "non-multiplicative units are no longer selected with self._is_multiplicative(u)")
 
     # ------------------------------------------------------------ (c) offset calculus decision table
     offset_table(ck, ix)
@@ -200,6 +220,11 @@ def _subst(e, local):
     """Replace names bound in the same branch body (e.g. `tu`) by their value."""
     if isinstance(e, ast.Name) and e.id in local:
         return local[e.id]
+    if isinstance(e, ast.Name) and _PRED_FN[0] is not None and getattr(e, "_parent", None) is not None:
+        from .. import shape as _shs6
+        v = _shs6.dominating_def(e, _PRED_FN[0])
+        if isinstance(v, ast.Attribute) and norm(v) in ("self._units", "other._units", "self._magnitude", "other._magnitude"):
+            return v                       # a function-level alias such as `self_units = self._units`
     return e
 
 
@@ -274,24 +299,41 @@ def _chain(ifnode):
             return out, cur.orelse
 
 
+_PRED_FN = [None]      # the function whose chain is being read (set by offset_table); tests are resolved in it
+
+
 def _pred(test):
-    """Map a branch test to the vocabulary of Appendix A."""
-    s = _v(norm(test)).replace("\n", " ")
-    parts = [norm(x) for x in (test.values if isinstance(test, ast.BoolOp) and isinstance(test.op, ast.And) else [test])]
-    parts = [_v(p) for p in parts]
+    """Map a branch test to the vocabulary of Appendix A.  Every conjunct is first resolved through the local
+    temporaries (`is_self_multiplicative`, `self_units = self._units`, ...) so that the spelling does not matter; the
+    name of the single offset unit is a wildcard."""
+    from .. import shape as _shp6
+    fn = _PRED_FN[0]
+    parts = list(test.values) if isinstance(test, ast.BoolOp) and isinstance(test.op, ast.And) else [test]
+    patterns = [
+        ("len(self._get_non_multiplicative_units()) == 0", "SELF_MULT"), ("len(other._get_non_multiplicative_units()) == 0", "OTHER_MULT"),
+        ("not self._get_non_multiplicative_units()", "SELF_MULT"), ("not other._get_non_multiplicative_units()", "OTHER_MULT"),
+        ("op == operator.sub", "SUB"), ("op == operator.isub", "SUB"),
+        ("len(self._get_non_multiplicative_units()) == 1", "SELF_ONE_OFFSET"), ("self._units[_U] == 1", "SELF_OFFSET_EXP1"),
+        ("len(other._get_non_multiplicative_units()) == 1", "OTHER_ONE_OFFSET"), ("other._units[_U] == 1", "OTHER_OFFSET_EXP1"),
+        ("other._has_compatible_delta(_U)", "OTHER_HAS_DELTA(u)"), ("not other._has_compatible_delta(_U)", "NOT OTHER_HAS_DELTA(u)"),
+        ("self._has_compatible_delta(_U)", "SELF_HAS_DELTA(u')"), ("not self._has_compatible_delta(_U)", "NOT SELF_HAS_DELTA(u')"),
+        ("self._units == other._units", "SAME_UNITS"), ("other._units == self._units", "SAME_UNITS"),
+        ("self._get_delta_units()", "SELF_DELTA"), ("not other._get_delta_units()", "NOT OTHER_DELTA"),
+    ]
     names = []
-    table = {
-        "is_self_multiplicative": "SELF_MULT", "is_other_multiplicative": "OTHER_MULT",
-        "op == operator.sub": "SUB",
-        "len(self_non_mul_units) == 1": "SELF_ONE_OFFSET", "self._units[self_non_mul_unit] == 1": "SELF_OFFSET_EXP1",
-        "len(other_non_mul_units) == 1": "OTHER_ONE_OFFSET", "other._units[other_non_mul_unit] == 1": "OTHER_OFFSET_EXP1",
-        "other._has_compatible_delta(self_non_mul_unit)": "OTHER_HAS_DELTA(u)", "not other._has_compatible_delta(self_non_mul_unit)": "NOT OTHER_HAS_DELTA(u)",
-        "self._has_compatible_delta(other_non_mul_unit)": "SELF_HAS_DELTA(u')", "not self._has_compatible_delta(other_non_mul_unit)": "NOT SELF_HAS_DELTA(u')",
-        "self._units == other._units": "SAME_UNITS",
-        "self._get_delta_units()": "SELF_DELTA", "not other._get_delta_units()": "NOT OTHER_DELTA",
-    }
     for p in parts:
-        names.append(table.get(p, "?" + p))
+        r = _shp6.resolve(p, fn) if fn is not None else p
+        hit = None
+        for pat, nm in patterns:
+            if _shp6.match(pat, r) is not None:
+                hit = nm
+                break
+        if hit is None and isinstance(r, ast.BoolOp) and isinstance(r.op, ast.And):
+            # a hoisted conjunction (`both_mult = a and b`): flatten
+            sub = _pred(p if not isinstance(p, ast.Name) else _shp6.unalias(p, fn))
+            names.extend(sub)
+            continue
+        names.append(hit or "?" + norm(p))
     return tuple(names)
 
 
@@ -317,7 +359,9 @@ def offset_table(ck, ix):
         fi = ix.func(PQ, q)
         ck.analysed(fi)
         defs = defs_of(fi)
-        top = [s for s in fi.node.body if isinstance(s, ast.If) and "is_self_multiplicative" in norm(s.test)]
+        _PRED_FN[0] = fi.node
+        from .. import shape as _sho
+        top = [s for s in fi.node.body if isinstance(s, ast.If) and "_get_non_multiplicative_units()) == 0" in _sho.rnorm(s.test, fi.node)]
         if len(top) != 1:
             raise AnalysisError(f"{q}: offset decision chain not found")
         chain, els = _chain(top[0])
@@ -361,7 +405,8 @@ def offset_table(ck, ix):
         fi = ix.func(PQ, q)
         cfg = cfg_of(fi)
         gate = [n.id for n in cfg.nodes if n.kind == "test" and "self.dimensionality" in norm(n.ast) and "other.dimensionality" in norm(n.ast)]
-        chain_top = [n.id for n in cfg.nodes if n.kind == "test" and "is_self_multiplicative" in norm(n.ast)]
+        from .. import shape as _sho
+        chain_top = [n.id for n in cfg.nodes if n.kind == "test" and "_get_non_multiplicative_units()) == 0" in _sho.rnorm(n.ast, fi.node)]
         p = undominated(cfg, chain_top, gate)
         ck.check(bool(gate) and p is None, "G-DOM", f"{q}|dimensionality-test-dominates-calculus", fi.loc(), "operands of different dimensionality are rejected first",
                  "the offset calculus is reachable without the dimensionality test", witness(cfg, p))
